@@ -734,4 +734,13 @@ silent('s-pos1-child-index', ['C03', 'C09'], 'an index lookup in a list of nodes
 fire('par14-dedent-bookkeeping-in-add-token', ['C02', 'C07'], ['PAR-14', 'PAR-6'], 'the INDENT / DEDENT counting moves from the token-stream filter into an _add_token override, which error_recovery calls again for the token it recovered on (rt10-C02, reduced)',
      (PYPARSER, "    def _recovery_tokenize(self, tokens):", "    def _add_token(self, token):\n        typ = token[0]\n        if self._error_recovery:\n            if typ == DEDENT:\n                self._indent_counter -= 1\n            elif typ == INDENT:\n                self._indent_counter += 1\n        super()._add_token(token)\n\n    def _recovery_tokenize(self, tokens):"), analysis_error_ok=True)
 
+fire('idx1-last-of-filtered-operators', ['C20'], ['IDX-1'], 'the assignment operator a backslash continuation aligns with is taken as the last element of a filtered list (rt11-C20)',
+     (PEP8, "            equals = expr_stmt.children[-2]\n", "            equals = [c for c in expr_stmt.children if c.type == 'operator' and c.end_pos <= spacing.start_pos][-1]\n"))
+fire('cache9-entry-setstate', ['C16', 'C17'], ['CACHE-9'], 'the cache entry pickles only (node, lines) and re-runs __init__ on load (rt11-C16)',
+     (CACHE, "class _NodeCacheItem:\n", "class _NodeCacheItem:\n    def __getstate__(self):\n        return self.node, self.lines\n\n    def __setstate__(self, state):\n        self.__init__(*state)\n\n"))
+fire('cache10-save-skipped-when-file-looks-fresh', ['C17', 'C16'], ['CACHE-10'], 'the pickle write is skipped when the cache file on disk is not older than the source (rt11-C17)',
+     (CACHE, "    if pickling and path is not None:\n        try:\n            _save_to_file_system(", "    if pickling and path is not None and not (p_time is not None and os.path.exists(_get_hashed_path(hashed_grammar, path, cache_path=cache_path)) and p_time <= os.path.getmtime(_get_hashed_path(hashed_grammar, path, cache_path=cache_path))):\n        try:\n            _save_to_file_system("))
+fire('tok12-comment-to-end-of-line', ['C01', 'C09'], ['TOK-12'], 'a comment inside an f-string expression goes to the prefix and the scan jumps to the end of the physical line (rt11-C01, reduced)',
+     (TOK, "                    yield PythonToken(ERRORTOKEN, initial, spos, prefix)\n                    pos = start + 1\n", "                    if fstring_stack[-1].allow_multiline():\n                        pos = len(line.rstrip('\\r\\n'))\n                        additional_prefix = prefix + token\n                    else:\n                        yield PythonToken(ERRORTOKEN, initial, spos, prefix)\n                        pos = start + 1\n"))
+
 VARIANTS = [v for v in VARIANTS if v is not None]
